@@ -74,7 +74,9 @@ INFO = {
 
 CONTENT_TYPES = ('text/html; charset=utf-8', 'text/html', 'image/svg+xml', 'application/vnd.ms-excel', 'application/octet-stream',
                  'text/plain;charset=ISO-8859-1', 'application/xhtml+xml; q=1', 'TEXT/HTML',
-                 'text/html\r\n\tcharset=utf-8', 'text/css, text/css', 'text/html ; charset=utf-8', 'text/html\r\n ;charset=x')
+                 'text/html\r\n\tcharset=utf-8', 'text/css, text/css', 'text/html ; charset=utf-8', 'text/html\r\n ;charset=x',
+                 # every token character is legal in a type or subtype (RFC 7230 3.2.6: "!#$%&'*+-.^_`|~" DIGIT ALPHA)
+                 'text/x*y', "application/x-it's", 'application/a|b~c%d`e; v=1')
 _seq = [0]
 
 
